@@ -95,7 +95,13 @@ fn main() {
             mid = os_threads();
             // pm dropped here: must stop and join its threads
         }
-        let after = os_threads();
+        // a joined thread may linger in /proc for a moment: poll, a real leak persists
+        let mut after = os_threads();
+        let deadline = std::time::Instant::now() + std::time::Duration::from_secs(3);
+        while after > before && std::time::Instant::now() < deadline {
+            std::thread::sleep(std::time::Duration::from_millis(1));
+            after = os_threads();
+        }
         let outs: Vec<String> = out.iter().map(|x| x.to_string()).collect();
         let pulls: Vec<String> = pulled_at.iter().map(|x| x.to_string()).collect();
         println!(
